@@ -523,14 +523,32 @@ fn locate(out: &mut Outcome, addr: usize) {
     out.block = if n == 1 { b } else { None };
 }
 
+static SEED: std::sync::atomic::AtomicU64 = std::sync::atomic::AtomicU64::new(1);
+
 fn ns(thorough: bool) -> Vec<usize> {
+    let mut r = layout_harness::Rng::new(SEED.load(std::sync::atomic::Ordering::Relaxed) ^ 0xC18);
     let mut v: Vec<usize> = (0..=12).collect();
     v.extend(if thorough { vec![13, 31, 64, 100, 257, 1000] } else { vec![100, 1000] });
+    // seeded lengths
+    v.push(13 + r.below(80) as usize);
+    if thorough {
+        v.push(100 + r.below(3000) as usize);
+    }
+    v.sort();
+    v.dedup();
     v
 }
 
 fn panic_points(n: usize) -> Vec<usize> {
-    if n <= 12 { (0..n).collect() } else { vec![0, 1, n / 2, n - 2, n - 1] }
+    if n <= 12 {
+        (0..n).collect()
+    } else {
+        let mut r = layout_harness::Rng::new(SEED.load(std::sync::atomic::Ordering::Relaxed) ^ (n as u64) << 8);
+        let mut v = vec![0, 1, n / 2, n - 2, n - 1, 2 + r.below(n as u64 - 4) as usize];
+        v.sort();
+        v.dedup();
+        v
+    }
 }
 
 // ------------------------------------------------------------------------------------------------
@@ -890,6 +908,9 @@ fn main() {
     install_panic_hook();
     let tier = arg_value("--tier").unwrap_or_else(|| "quick".into());
     let thorough = tier == "thorough";
+    if let Some(seed) = arg_value("--seed").and_then(|s| s.parse::<u64>().ok()) {
+        SEED.store(seed, std::sync::atomic::Ordering::Relaxed);
+    }
     println!(
         "PLATFORM usize_bits={} usize_size={} usize_align={} debug_assertions={} hooks={}",
         usize::BITS, size_of::<usize>(), align_of::<usize>(), cfg!(debug_assertions), cfg!(gc_arena_verif)
